@@ -16,6 +16,7 @@ def dispatchExec (op : String) (ts impl : List String) : Option String :=
   if op.startsWith "txt-" then Driver.C16.exec op ts impl
   else if op == "decode" then Driver.Wire.exec op ts
   else if op == "sim" then Driver.Sim.exec ts impl
+  else if op == "sim2" then some "nomodel"
   else if Driver.C11.isOp op then Driver.C11.exec op ts
   else none
 
@@ -23,6 +24,7 @@ def dispatchMon (op : String) (ts impl : List String) : Option String :=
   if op.startsWith "txt-" then Driver.C16.monitor op ts impl
   else if op == "decode" then Driver.Wire.monitor op ts impl
   else if op == "sim" then Driver.Sim.monitorOp ts impl
+  else if op == "sim2" then Driver.Sim.monitorOp2 ts impl
   else if Driver.C11.isOp op then Driver.C11.monitor op ts impl
   else some "unknown-op"
 
